@@ -74,6 +74,7 @@ Definition flat_obs (o : obs) : list tok :=
   | OCan b => [TS "can"; TN (if b then 1 else 0)]
   | OEnter x => [TS "enter"; TN x]
   | OLeave x => [TS "leave"; TN x]
+  | OEmit k w => [TS "emit"; TN k; TN w]
   end.
 
 Fixpoint ins_hist (e : nat * list nat) (l : list (nat * list nat)) :=
